@@ -555,7 +555,7 @@ func (m *Machine) store(p Ptr, v Value) {
 		m.oblige(m.cbool(false), "nil pointer dereference", "")
 		m.fail("nil deref")
 	}
-	if m.effectsOn && p.obj.id <= m.preexistBelow {
+	if m.effectsOn && (p.obj.id <= m.preexistBelow || !p.obj.fresh) { // package-level variables (materialised lazily) always pre-exist
 		m.noteEffect(p)
 		m.oblige(m.cbool(false), "effect: store to memory that existed before the call: "+p.obj.name+pathString(p.path), "")
 	}
